@@ -456,6 +456,8 @@ def run(repo, rep):
     rule_table_generators_in_double(repo, rep)
     rep.clause("C19-n", "the int16 table generator uses the reference's constants: 512 intervals, outputs scaled by 65536 / output range, mid-point at half a step, int16 clamp, word = slope << 16 + base (folded from the source)")
     rule_round10(repo, rep)
+    rep.clause("C19-p", "a rewrite that decides on a quantised constant decides on its real value, (code - zero point) * scale: no raw code is compared with a numeric literal or stored as a real-valued alpha")
+    rule_raw_code_comparisons(repo, rep)
     rep.clause("C19-o", "a table is a function of the operator it is built for: the table modules keep no process-wide memo of generated tables [rule shared with C14-a]")
     from . import c14 as _c14
 
@@ -775,3 +777,35 @@ def rule_round10(repo, rep):
     rep.check(len(words) == 1 and str(norm(words[0].value)) in ("slope + base", "base + slope") and len(slopes) == 1 and str(norm(slopes[0])).endswith("<< 16"), "C19-n", site,
               "table word = (difference to the next sample) << 16 + base", f"`{str(norm(words[0].value)) if words else None}` / `{str(norm(slopes[0])) if slopes else None}`")
     rep.floor("C19-n", 6)
+
+
+def rule_raw_code_comparisons(repo, rep):
+    """(p) the value of a quantised constant is (code - zero point) * scale. A rewrite that decides on such a constant (Maximum(x, Mul(x, c))
+    -> Abs for c = -1, LeakyRelu for 0 <= c <= 1) compares the *real* value: a local bound to `<tensor>.values` of a tensor whose
+    quantisation record the same function reads is never compared with a numeric literal as it is, and is stored as a real-valued attribute
+    (`attrs["alpha"]`) only after the zero point has been removed and the scale applied."""
+    n = 0
+    for mn in ("tflite_graph_optimiser", "graph_optimiser_util"):
+        m = repo.mod(mn)
+        for q, fn in m.functions.items():
+            src = " ".join(str(norm(s)) for s in fn.body)
+            raw = {}
+            for st in ast.walk(fn):
+                if isinstance(st, ast.Assign) and isinstance(st.targets[0], ast.Name) and str(norm(st.value)).endswith(".values") and ".quantization." in src:
+                    raw[st.targets[0].id] = str(norm(st.value))
+            for c in (ast.walk(fn) if raw else ()):
+                if isinstance(c, ast.Compare) and len(c.ops) == 1 and not isinstance(c.ops[0], (ast.Is, ast.IsNot)):
+                    l, r = c.left, c.comparators[0]
+                    for a, b in ((l, r), (r, l)):
+                        lit = isinstance(b, ast.Constant) and isinstance(b.value, (int, float)) and not isinstance(b.value, bool) or (isinstance(b, ast.UnaryOp) and isinstance(b.operand, ast.Constant))
+                        if isinstance(a, ast.Name) and a.id in raw and lit:
+                            n += 1
+                            rep.bad("C19-p", f"{m.rel}:{q}", f"`{str(norm(c))}` compares the real value of the constant", f"`{a.id}` is the raw code `{raw[a.id]}`: with a non-zero zero point or a scale other than 1 the decision is taken on the wrong number "
+                                    "(code 0, zero point -128, scale 1/256 is alpha 0.5 and was lowered to a plain ReLU; code 2 is alpha 2 and became LeakyRelu(2), which is not max(x, 2x))")
+            for st in ast.walk(fn):
+                if isinstance(st, ast.Assign) and isinstance(st.targets[0], ast.Subscript) and str(norm(st.targets[0])).replace('"', "'").endswith(".attrs['alpha']"):
+                    n += 1
+                    v = st.value
+                    rep.check(not (isinstance(v, ast.Name) and v.id in raw), "C19-p", f"{m.rel}:{q}", f"`{str(norm(st))[:70]}` stores a real-valued alpha", "the raw code of the constant is stored as alpha")
+    if n < 2:
+        raise AnalysisError(f"alpha stores / raw constant comparisons in the graph optimiser: {n} found")
